@@ -3,8 +3,8 @@ from harness import common as C
 from harness._compute import symobj_replay
 
 PROPERTY = "C05"
-LEAN_TARGETS = ["VectorModel.Props.C05"]
-THEOREM_FILES = ["VectorModel/Props/C05.lean"]
+LEAN_TARGETS = ["VectorModel.Props.C05", "VectorModel.Glue.Ufunc", "VectorModel.Props.C05Ufunc"]
+THEOREM_FILES = ["VectorModel/Props/C05.lean", "VectorModel/Props/C05Ufunc.lean"]
 NEEDS_TRANSLATOR = True
 NOT_COVERED = ["NumPy / Awkward internals (structured views, ak.zip, ak.transform): modelled at their contract, checked differentially"]
 
@@ -68,6 +68,21 @@ def correspondence(ctx):
             kseen.add(k_)
             dis.append(f"signature: {a_} :: {b_}"[:300])
             fails.append({"key": k_, "what": f"{a_}: {b_}"[:400], "code": keyword_replay(ctx.seed, ctx.tier, k_)})
+    # the ROUTING model of the four __array_ufunc__ / behavior tables (Glue/Ufunc via Driver/Ufunc): every ufunc x operand-kind list x out=,
+    # the Python operator forms and the Awkward key registry; the model's route is evaluated on the real library and compared
+    from harness import ufunc as _ufunc
+    up, ust = _ufunc.run(ctx)
+    useen = set()
+    for k_, d_ in up:
+        if k_ in useen:
+            continue
+        useen.add(k_)
+        dis.append(f"ufunc-routing: {k_}: {d_}"[:300])
+        fails.append({"key": "ufunc:" + str(k_), "what": str(d_)[:400], "code": (
+            "import sys; sys.path.insert(0, %r); sys.path.insert(0, %r)\nfrom harness import ufunc\nclass X: seed=%d; tier=%r\n"
+            "problems, _ = ufunc.run(X)\nassert not problems, problems[0]\n" % (C.VERIF, C.VERIF + "/tools", ctx.seed, ctx.tier))})
+    total += ust.get("requests", 0)
+    st.update({"ufunc_routing_" + k_: v_ for k_, v_ in ust.items() if isinstance(v_, (int, float, str, dict)) or v_ is None})
     st.update({"traces_validated_against_impl": total, "type_lattice_disagreement_classes": classes})
     return {"ok": not dis, "disagreements": dis[:20], "failing_inputs": fails[:10] + known_hits, "stats": st,
             "samples": [{"request": reqs[i], "answer": symobj.real_answer(reqs[i])[:160]} for i in (0, len(reqs) // 2, len(reqs) - 1)]}
